@@ -36,6 +36,7 @@ package main
 //@   loop 1 invariant scanner != nil && n == scanner.$ln && n >= 0
 //@   loop 1 invariant#count len(recs) + ($warnings - old($warnings)) == keycount(id(scanner), n)                     [C18]
 //@   loop 1 invariant#nonnil forall j in 0..len(recs) :: recs[j] != nil                                            [C18]
+//@   loop 1 invariant#freshrecs rg(recs) == 0 || fresh(recs)
 //@   call parseRecipient#0 requires arg0 == scanner.$cur && iskeyline(arg0)                                         [C18]
 //@   call warningf#1 requires (lastret("sshKeyType",1,0) != "ssh-rsa" && lastret("sshKeyType",1,0) != "ssh-ed25519") || lastret("ParseAuthorizedKey",1,4) == nil   [C18]
 //@   call fmt.Errorf#4 requires arg0 == "%q: malformed recipient at line %d" && len(arg1) == 2 && unboxstr(arg1[0]) == name && unboxint(arg1[1]) == n && n == scanner.$ln   [C18]
@@ -111,21 +112,25 @@ package main
 
 //@ func parseSSHIdentity(name, pemBytes) (ids, err)
 //@   modifies nothing
+//@   frame assumed x/crypto/ssh key parsers and the edwards25519 conversions are library code without frame contracts
 //@   ensures#one err == nil ==> len(ids) == 1 && ids[0] != nil                                                      [C14 C18]
 //@   ensures#nil err != nil ==> ids == nil                                                                          [C14 C18]
 
 //@ func parseIdentitiesFile(name) (ids, err)
 //@   modifies stdinInUse
+//@   frame assumed reads os.Stdin or a file opened here: the ghost stream state of OS files is outside the frame language
 //@   ensures#nonnil err == nil ==> len(ids) >= 1 && (forall j in 0..len(ids) :: ids[j] != nil)                      [C14 C18]
 //@   ensures#nil err != nil ==> ids == nil                                                                          [C14 C18]
 
 //@ func (*EncryptedIdentity).Recipients(i) (recs, err)
 //@   modifies i.identities
+//@   frame assumed decrypts the identity file through age.Decrypt and prompts: callee effects on ghost I/O state are not enumerated
 //@   assumes#nonnil err == nil ==> (forall j in 0..len(recs) :: recs[j] != nil)
 
 //@ func identitiesToRecipients(ids) (recs, err)
 //@   nosafety
 //@   modifies nothing
+//@   frame assumed calls Recipient()/Recipients() of arbitrary identity implementations (interface dispatch, no frame contract)
 //@   loop 1 invariant#idx -1 <= rangeindex && rangeindex < len(ids)
 //@   loop 1 invariant#nonnil forall j in 0..len(recipients) :: recipients[j] != nil                                 [C14 C18]
 //@   ensures#nonnil err == nil ==> (forall j in 0..len(recs) :: recs[j] != nil)                                     [C14 C18]
@@ -171,6 +176,7 @@ package main
 //@   nosafety
 //@   requires in != nil
 //@   modifies in.$rem
+//@   frame assumed (*bytes.Buffer).ReadFrom is library code without a contract
 //@   ensures#nonnil err == nil ==> r != nil                                                                         [C14]
 
 // ---- C10: the CLI's passphrase identity refuses mixed headers before prompting
